@@ -7,7 +7,7 @@ from comp.slab import gen
 
 KINDS = {
     "C01": {"overlap", "inside", "align", "size", "bookkeeping", "freelist", "sizeclass", "assert"},
-    "C02": {"content", "footprint", "realloc", "nullop"},
+    "C02": {"content", "footprint", "realloc", "nullop", "churn"},
     "C03": {"unmap", "pages", "poison", "poison-access"},
     "C04": {"mapfail"},
 }
@@ -55,6 +55,22 @@ def build(c):
     _built["r"] = (drv if okd else None, har, cfgs)
     return _built["r"]
 
+def build_fast(c):
+    """-O2 build without sanitizers, only for the long churn replays (2^32 allocate/free pairs)"""
+    if "fast" not in _built:
+        ok, exe, log = vlib.cxx_build("slab_h_fast", os.path.join(vlib.ROOT, "comp/slab/harness.cpp"), san="none", extra=["-O2"])
+        if not ok:
+            c.broken.append("slab fast harness does not compile: " + log[-800:])
+        _built["fast"] = exe if ok else None
+    return _built["fast"]
+
+def is_long(lines):
+    for l in lines:
+        t = l.split()
+        if t and t[0] == "churn" and len(t) >= 3 and int(t[2]) > 5000000:
+            return True
+    return False
+
 def nontrivial(cid, lines, ri):
     maps = sum(1 for l in ri["lines"] if l.startswith("map ") and not l.endswith(" 0"))
     failed = sum(1 for l in ri["lines"] if l.startswith("map ") and l.endswith(" 0"))
@@ -101,8 +117,15 @@ def run(c, focus="C01"):
                     c.count("slab_env_fail")
             elif t[0] in ("f", "g", "w", "c", "v"):
                 c.count("slab_op_" + t[0])
-    impl = vlib.run_cases(har, cases, timeout=900)
-    model = vlib.run_cases(drv, cases, timeout=900) if drv else {}
+    long_cases = [x for x in cases if is_long(x[1])]
+    short_cases = [x for x in cases if not is_long(x[1])]
+    impl = vlib.run_cases(har, short_cases, timeout=900)
+    if long_cases:
+        fast = build_fast(c)
+        if fast:
+            impl.update(vlib.run_cases(fast, long_cases, shards=len(long_cases), timeout=1800))
+            c.count("slab_long_churn_cases", len(long_cases))
+    model = vlib.run_cases(drv, cases, timeout=1800) if drv else {}
     for cid, lines in cases:
         ri, rm = impl.get(cid), model.get(cid)
         key = None
@@ -134,6 +157,9 @@ def run(c, focus="C01"):
         if "assert" in ri["lines"]:
             # the generator only writes admissible histories: an FRG_ASSERT firing is a failure of C01's "never stops"
             orc("assert", "an FRG_ASSERT of the pool fired on an admissible history (after %d output lines)" % ri["lines"].index("assert"))
+            if any(l.startswith("churn ") for l in lines):
+                # C02: arbitrarily long alloc/free churn must keep working
+                orc("churn", "an FRG_ASSERT of the pool fired after alloc/free churn (after %d output lines)" % ri["lines"].index("assert"))
         if rm is None:
             if drv:
                 c.mismatch(cid, lines, "model produced no output")
